@@ -360,6 +360,11 @@ def _xlogy(e, b):
     return ufunc(lambda x, y: T.ite(T.eq(x, 0), 0, T.mul(x, T.log_(y))), 2)(operand(e, s, rt), operand(e, o, rt))
 
 
+@pure(*_maybe("special_gammaincc.default", "igammac.default"))
+def _gammaincc(e, b):
+    return ufunc(T.gammaincc_, 2)(e.read(b["self"]), e.read(b["other"]))
+
+
 @pure(*_maybe("where.self"))
 def _where(e, b):
     rt = _rt(b["self"], b["other"])
